@@ -1,5 +1,5 @@
 /* C17 H1/H2/H3: source_get_chunk, sink_put_chunk and the at-most variants over a
- * scripted driver (octet style or chunk style, chosen by the solver).
+ * scripted driver (octet style with -DKIND_OCTET, else chunk style).
  * Units: src/endpoints/core.c (linked unchanged).
  *
  * Oracle (from the property text and the contract in core.c's header comment):
@@ -13,8 +13,17 @@
  */
 #include "c17_drv.h"
 
+#ifdef KIND_OCTET
+#define OCTET true
+#define W_OCTET(c, l) VP_WITNESS(c, l)
+#define W_CHUNK(c, l)
+#else
+#define OCTET false
+#define W_OCTET(c, l)
+#define W_CHUNK(c, l) VP_WITNESS(c, l)
+#endif
+
 struct vp_in {
-    uint8_t octet; /* 1: octet-style driver, 0: chunk-style driver */
     uint64_t n;
     int32_t hard_err;
     struct c17_step script[SLEN];
@@ -31,7 +40,6 @@ static unsigned char stream[NMAX];
 void harness(void)
 {
     VP_INPUT(in);
-    VP_ASSUME(in.octet <= 1);
     VP_ASSUME(c17_script_ok(in.script));
     VP_ASSUME(c17_err_ok(in.hard_err));
 #if defined(OP_GET) || defined(OP_PUT)
@@ -53,13 +61,13 @@ void harness(void)
     /* the source owns the stream; `area` is the caller's destination */
     c17_drv_init(&drv, in.script, stream, NMAX, true, nn, in.hard_err, 0);
     Source src;
-    c17_source(&src, &drv, in.octet);
+    c17_source(&src, &drv, OCTET);
 #else
     /* `area` is the sink's store; the caller's buffer is the last n octets of
      * `stream` so that an over-read leaves the object */
     c17_drv_init(&drv, in.script, area, NMAX, true, nn, in.hard_err, 0);
     Sink snk;
-    c17_sink(&snk, &drv, in.octet);
+    c17_sink(&snk, &drv, OCTET);
     const unsigned char *const buf = stream + (NMAX - nn);
 #endif
 
@@ -82,8 +90,8 @@ void harness(void)
             VP_ASSERT(c17_same(area, stream, n, NMAX), "C17.get.next-n-octets-in-order");
         }
         VP_ASSERT(c17_frame(store, old, sizeof store, GUARD, GUARD + n), "C17.get.nothing-outside-n");
-        VP_WITNESS(rc == (ssize_t)n && n == NMAX && drv.partial_seen && !in.octet, "C17.get.chunk-partial.reach");
-        VP_WITNESS(rc == (ssize_t)n && n == NMAX && in.octet && drv.stalls == STALL, "C17.get.octet-stalls.reach");
+        W_CHUNK(rc == (ssize_t)n && n == NMAX && drv.partial_seen, "C17.get.chunk-partial.reach");
+        W_OCTET(rc == (ssize_t)n && n == NMAX && drv.stalls == STALL, "C17.get.octet-stalls.reach");
         VP_WITNESS(rc == (ssize_t)n && drv.zero_seen && drv.eintr_seen, "C17.get.zero-eintr.reach");
         VP_WITNESS(rc == (ssize_t)n && drv.eagain_seen && drv.pos > 1, "C17.get.eagain.reach");
         VP_WITNESS(rc < 0 && drv.hard_seen && drv.pos > 0 && in.hard_err == -EIO, "C17.get.hard-after-progress.reach");
@@ -106,8 +114,8 @@ void harness(void)
         }
         /* what reached the sink is always a prefix of the caller's octets */
         VP_ASSERT(c17_same(area, buf, drv.pos, NMAX), "C17.put.sink-holds-prefix-in-order");
-        VP_WITNESS(rc == (ssize_t)n && n == NMAX && drv.partial_seen && !in.octet, "C17.put.chunk-partial.reach");
-        VP_WITNESS(rc == (ssize_t)n && n == NMAX && in.octet && drv.stalls == STALL, "C17.put.octet-stalls.reach");
+        W_CHUNK(rc == (ssize_t)n && n == NMAX && drv.partial_seen, "C17.put.chunk-partial.reach");
+        W_OCTET(rc == (ssize_t)n && n == NMAX && drv.stalls == STALL, "C17.put.octet-stalls.reach");
         VP_WITNESS(rc == (ssize_t)n && drv.zero_seen && drv.eintr_seen, "C17.put.zero-eintr.reach");
         VP_WITNESS(rc == (ssize_t)n && drv.eagain_seen && drv.pos > 1, "C17.put.eagain.reach");
         VP_WITNESS(rc < 0 && drv.hard_seen && drv.pos > 0 && in.hard_err == -ENOMEM, "C17.put.hard-after-progress.reach");
@@ -125,9 +133,9 @@ void harness(void)
     if (!drv.neg_seen)
         VP_ASSERT(rc >= 0, "C17.get-atmost.no-spurious-error");
     VP_ASSERT(c17_frame(store, old, sizeof store, GUARD, GUARD + n), "C17.get-atmost.nothing-outside-n");
-    VP_WITNESS(rc > 0 && (size_t)rc < n && !in.octet, "C17.get-atmost.chunk-short.reach");
-    VP_WITNESS(rc == (ssize_t)n && n == NMAX && in.octet && drv.stalls > 0, "C17.get-atmost.octet-full.reach");
-    VP_WITNESS(drv.hard_seen && drv.pos > 0 && in.octet, "C17.get-atmost.octet-hard-after-progress.reach");
+    W_CHUNK(rc > 0 && (size_t)rc < n, "C17.get-atmost.chunk-short.reach");
+    W_OCTET(rc == (ssize_t)n && n == NMAX && drv.stalls > 0, "C17.get-atmost.octet-full.reach");
+    W_OCTET(drv.hard_seen && drv.pos > 0, "C17.get-atmost.octet-hard-after-progress.reach");
 #elif defined(OP_PUT_ATMOST)
     const ssize_t rc = sink_put_chunk_atmost(&snk, buf, n);
     VP_ASSERT(drv.pos <= n, "C17.put-atmost.never-more-than-asked");
@@ -137,9 +145,9 @@ void harness(void)
     if (!drv.neg_seen)
         VP_ASSERT(rc >= 0, "C17.put-atmost.no-spurious-error");
     VP_ASSERT(c17_same(stream, in.stream, NMAX, NMAX), "C17.put-atmost.buffer-unchanged");
-    VP_WITNESS(rc > 0 && (size_t)rc < n && !in.octet, "C17.put-atmost.chunk-short.reach");
-    VP_WITNESS(rc == (ssize_t)n && n == NMAX && in.octet && drv.stalls > 0, "C17.put-atmost.octet-full.reach");
-    VP_WITNESS(drv.hard_seen && drv.pos > 0 && in.octet, "C17.put-atmost.octet-hard-after-progress.reach");
+    W_CHUNK(rc > 0 && (size_t)rc < n, "C17.put-atmost.chunk-short.reach");
+    W_OCTET(rc == (ssize_t)n && n == NMAX && drv.stalls > 0, "C17.put-atmost.octet-full.reach");
+    W_OCTET(drv.hard_seen && drv.pos > 0, "C17.put-atmost.octet-hard-after-progress.reach");
 #else
 #error "no OP"
 #endif
